@@ -27,6 +27,8 @@ class LoopMonitor:
         self.saw_tablet = False
         self.nsends = 0
         self.nchords = 0
+        self.P = []               # physical keys held, folded from the events read (None = unknown after tablet mode)
+        self.absorbing = False
 
     # ---- helpers
     def isin(self, k, lst):
@@ -86,8 +88,21 @@ class LoopMonitor:
     def on_key_read(self, kind, key):
         self.Qk -= 1
         if self.tablet:
+            # unseen key activity: the physical view is unknown after tablet mode
+            self.P = None
             return
+        acted = None
+        if self.P is not None and not self.absorbing:
+            held = self.isin(key, self.P)
+            acted = (kind == 'Pressed' and not held) or (kind == 'Released' and held)
+            if acted and kind == 'Pressed':
+                self.P.append(key)
+            elif acted:
+                self.P = [x for x in self.P if not self.q.keq(x, key)]
         evs, rep = self.ref.step(kind, key)
+        if acted and rep[0] == 'NoChange':
+            # C11: any key event the mapper acts on ends the repeat, whatever the mapper reports (layouts without absorbing)
+            rep = ('Disabled', None, None, None)
         if evs:
             self.expected.append(('evs', evs))
             self.Vexp = self.fold(self.Vexp, evs)
@@ -104,6 +119,7 @@ class LoopMonitor:
             self.Vexp = []
         self.rep = None
         self.ref.fresh()
+        self.P = None if (self.P is None or self.P or self.tablet) else []
         self.tablet = (ev == 'On')
 
     def on_send(self, evs):
